@@ -39,6 +39,7 @@ EXHAUSTIVE_NOTE = {"quick": "all op sequences of length 1..4 over 9 ops x thresh
                    "thorough": "all op sequences of length 1..5 over 9 ops x thresholds 1..3 (199290 histories), complete"}
 MIN_NONTRIVIAL_FRACTION = 0.1
 RULE += " Added after the seeded rounds: " + '40% of the generated histories start by tripping the breaker and waiting out the timeout (probes are common); stub exceptions are drawn from 16 exception types.'
+RULE += ' 1/30 of the histories contain a `bulk` of 1001+ requests with fresh prompts; clock gaps range from 0.5 s to two days.'
 
 PAIRS = {"raise_t": ("RAISE_TIMEOUT", "PERMIT"), "raise_v": ("EXECUTE", "RAISE_VALUE"), "raise_o": ("RAISE_OS", "PERMIT"), "ok": ("EXECUTE", "PERMIT"), "block": ("EXECUTE", "BLOCK"), "eblock": ("BLOCK", "PERMIT"), "fail": ("FAILURE", "PERMIT"),
          "raise_e": ("RAISE", "PERMIT"), "raise_a": ("EXECUTE", "RAISE"), "odd": ("UNKNOWN", "PERMIT"), "failblock": ("FAILURE", "BLOCK")}
@@ -48,9 +49,20 @@ _op = st.one_of(
     st.tuples(st.just("req"), st.integers(0, 3), _kind),
     st.tuples(st.just("req"), st.integers(4, 40), _kind),
     st.tuples(st.just("adv"), st.sampled_from([1, 59, 60, 61, 61, 61])),
-    st.tuples(st.just("adv"), st.sampled_from([61, 120])),
+    st.tuples(st.just("adv"), st.sampled_from([61, 120, 3600, 86400, 86400 + 10, 86400 + 59, 2 * 86400 + 30, 0.5])),
     st.tuples(st.just("reset")),
 ).map(list)
+
+
+def _expand(ops):
+    """["bulk", n, kind] stands for n requests with n fresh prompts: histories longer than the decision cache and the result log (1000 entries each)"""
+    out = []
+    for op in ops:
+        if op[0] == "bulk":
+            out.extend(["req", 100 + k, op[2]] for k in range(op[1]))
+        else:
+            out.append(op)
+    return out
 
 
 def _with_trip_prefix(case):
@@ -58,6 +70,9 @@ def _with_trip_prefix(case):
     if case.pop("trip"):
         k = case["threshold"]
         case["ops"] = [["req", 30 + i, "raise_e"] for i in range(k)] + [["adv", 61]] + case["ops"]
+    b = case.pop("bulk")
+    if b:
+        case["ops"] = case["ops"][:b[0]] + [["bulk", b[1], b[2]]] + case["ops"][b[0]:]
     return case
 
 
@@ -73,6 +88,7 @@ def _strategy():
         "breaker": st.sampled_from([True, True, True, False]),
         "cache": st.booleans(),
         "ops": st.lists(_op, min_size=1, max_size=20),
+        "bulk": st.integers(0, 29).flatmap(lambda k: st.none() if k else st.tuples(st.integers(0, 6), st.sampled_from([1001, 1004]), st.sampled_from(["ok", "ok", "block", "fail"])).map(list)),
     })
 
 
@@ -116,7 +132,7 @@ def _judge(case, out, clock, CS):
         s = loop.get_circuit_breaker_stats()
         return s.state, s.failure_count, s.last_failure
 
-    for i, op in enumerate(case["ops"]):
+    for i, op in enumerate(_expand(case["ops"])):
         if op[0] == "adv":
             clock.advance(op[1])
             continue
